@@ -63,8 +63,10 @@ def objective(desc):
     raise ValueError('unknown objective kind ' + k)
 
 
-def random_objective(rng, n, kinds=('sin', 'sin', 'sinq', 'cones', 'linear', 'quad')):
+def random_objective(rng, n, kinds=('sin', 'sin', 'sinq', 'cones', 'linear', 'quad'), lo=None, hi=None):
     k = rng.choice(kinds)
+    if k == 'cones':
+        return cones_in_box(rng, n, lo or [0.0] * n, hi or [1.0] * n)
     if k == 'sin':
         return {'kind': 'sin', 'w': [round(rng.uniform(0.5, 12), 3) for _ in range(n)], 'a': [round(rng.uniform(-1, 1), 3) for _ in range(n)]}
     if k == 'sinq':
